@@ -458,9 +458,27 @@ func selectorFacts() {
 	if sw != nil {
 		swb = squash(src(sw.Body))
 	}
-	swapOk := strings.Contains(swb, "if candidateID == fromNodeID { continue } selected.Add(candidateID)") &&
-		strings.Contains(swb, "sContext.SetSelected(selected)") && strings.Contains(swb, "r.selector.Select(sContext)") &&
+	// the members that stay are collected first, then taken out of the candidates, then the selector runs
+	iFill := strings.Index(swb, "if candidateID == fromNodeID { continue } selected.Add(candidateID)")
+	iSet := strings.Index(swb, "sContext.SetSelected(selected)")
+	iSel := strings.Index(swb, "r.selector.Select(sContext)")
+	swapOk := iFill >= 0 && iSet > iFill && iSel > iSet &&
 		strings.Contains(swb, "if targetNodeID == fromNodeID { return false, nil }")
+	// a proposed swap is recorded in every copy of the shard, so that a second swap of the same shard in the same
+	// round is computed against the ensemble the shard will have
+	lrf := parse("coordinator/model/load_ratio.go")
+	rep := funcDecl(lrf, "Ratio", "ReplaceInShardEnsembles")
+	repb := ""
+	if rep != nil {
+		repb = squash(src(rep.Body))
+	}
+	iMove := strings.Index(swb, "loadRatios.MoveShardToNode(candidateShard, fromNodeID, targetNodeID)")
+	iRep := strings.Index(swb, "loadRatios.ReplaceInShardEnsembles(candidateShard.Namespace, candidateShard.ShardID, fromNodeID, *targetNode)")
+	add("balancerRecordsSwapInShardEnsembles", "Bool", boolLean(iMove >= 0 && iRep > iMove &&
+		strings.Contains(repb, "if shard.Namespace != namespace || shard.ShardID != shardID { continue }") &&
+		strings.Contains(repb, "if server.GetIdentifier() != fromNode { ensemble = append(ensemble, server) }") &&
+		strings.Contains(repb, "shard.Ensemble = append(ensemble, toNode)")),
+		"coordinator/balancer/scheduler.go: swapShard; coordinator/model/load_ratio.go: ReplaceInShardEnsembles", "the swap is applied to the ensemble of every node's copy of the shard")
 	add("swapShardSelectsAgainstRestOfEnsemble", "Bool", boolLean(swapOk), "coordinator/balancer/scheduler.go: swapShard",
 		"selected = ensemble minus the node being left; SetSelected; the single-server selector picks the target; target == from is refused")
 }
@@ -954,7 +972,20 @@ func newTermSyncFacts() {
 		}
 		iSync := strings.Index(b, x.wal+".Sync(")
 		iHead := strings.Index(b, "getLastEntryIdInWal("+x.wal+")")
-		add(x.name, "Bool", boolLean(iSync >= 0 && iHead > iSync), x.file+": (*"+x.recv+").NewTerm",
+		// the sync is a statement of the function body itself (not under a condition), and so is the read of the head
+		topSync, topHead := -1, -1
+		if fn != nil {
+			for k, st := range fn.Body.List {
+				t := squash(src(st))
+				if topSync < 0 && strings.HasPrefix(t, "if err := "+x.wal+".Sync(") {
+					topSync = k
+				}
+				if topHead < 0 && strings.Contains(t, "getLastEntryIdInWal("+x.wal+")") {
+					topHead = k
+				}
+			}
+		}
+		add(x.name, "Bool", boolLean(iSync >= 0 && iHead > iSync && topSync >= 0 && topHead > topSync), x.file+": (*"+x.recv+").NewTerm",
 			"the WAL is synced (entries appended asynchronously become visible) before the head entry is read and reported")
 	}
 }
